@@ -49,13 +49,15 @@ CONSTANTS OpBudget,    \* how many operator commands may be issued (model checki
           Scheduler,   \* "default" (scheduler/default_scheduler.py: capture / invoke / delete per job) or "legacy"
                        \* (services/legacy_scheduler.py, the configured default: one poll pass captures every due call, invokes them one
                        \* by one, deletes them all)
+          QuietRerun,  \* TRUE: the two integrity checks a rerun schedules are left out (they have no effect in these runs; exhaustive
+                       \* runs drop them to keep the interleavings down, trace validation and the replayed behaviours keep them)
           NoopOps      \* TRUE: operator commands without effect (pause of a PAUSED execution, resume of a RUNNING one, any
                        \* command on a finished one) are steps too - needed to follow recorded runs, wasteful when model checking
 
 VARIABLES D,        \* the abstract definition (never changes)
           wf,       \* state of the root execution: "none", "RUNNING", "PAUSED", "SUCCESS", "ERROR", "CANCELLED"
           tk,       \* [task name -> [state, next, processed, errHandled]]   state "none" = no row
-          ax,       \* [task name -> sequence of the states of its action executions, in creation order]
+          ax,       \* [task name -> sequence of its action executions in creation order: [s (state), i (item index), a (accepted)]]
           msgs,     \* in-flight RPC messages: set of [id, m, t, k, res, fr, w]
           seen,     \* delivered messages (without id): candidates for redelivery
           ptq,      \* post-commit batches: set of [id, ops]   (ops: sequence of [op, t, k, fr, w])
@@ -75,7 +77,10 @@ Names   == Rng(D.order)
 IsJoin(t) == D.tasks[t].join # 0
 IntegrityDelay == 10    \* workflow_handler.start_workflow: _schedule_check_and_fix_integrity(delay=10)
 \* retryNo: retry_task_policy.retry_no of the runtime context (0 = absent); wbSkip / waSkip: the 'skip' marks of wait-before / wait-after
-NoRow == [state |-> "none", next |-> {}, processed |-> FALSE, errHandled |-> FALSE, retryNo |-> 0, wbSkip |-> FALSE, waSkip |-> FALSE]
+\* wiCount / wiCap: with_items.count / capacity of the runtime context (-1 = absent / None); conc: the concurrency stored by the
+\* before-start policies (0 = none)
+NoRow == [state |-> "none", next |-> {}, processed |-> FALSE, errHandled |-> FALSE, retryNo |-> 0, wbSkip |-> FALSE, waSkip |-> FALSE,
+          wiCount |-> -1, wiCap |-> -1, conc |-> 0]
 Row(s) == [NoRow EXCEPT !.state = s]
 AnyPerm(S) == {s \in [1..Cardinality(S) -> S] : \A a, b \in 1..Cardinality(S) : a # b => s[a] # s[b]}
 SeqOf(S) == CHOOSE s \in AnyPerm(S) : TRUE
@@ -90,6 +95,10 @@ H0 == [rearmed |-> FALSE,     \* a started / finished join was set back to WAITI
        stopIgnored |-> FALSE, \* stop(ERROR) on a PAUSED execution returned without effect (KF-C11-1)
        paused |-> FALSE,      \* a pause was requested (operator or pause command)
        delayedRestart |-> FALSE, \* a _refresh_task_state job restarted a join that was DELAYED (wait-after / retry delay): KF-C08-14
+       reruns |-> 0,             \* accepted rerun / skip commands
+       rerunT |-> {},            \* tasks the operator reran (a failed join that is rerun starts by the operator's decision)
+       rerunWaiting |-> {},      \* joins that were WAITING when a finished execution was rerun (KF-C12-9)
+       itemsRestart |-> FALSE,   \* a start_task sent by resume (KF-C10-5) reached a with-items task that had started already (KF-C07-7)
        timeoutRetry |-> FALSE,   \* the timeout timer failed a task that has a retry policy (KF-C08-1 / -4 / -8)
        multi |-> FALSE,       \* a second execution of a plain task was requested: outside this model (one row per task name)
        ops |-> 0, dups |-> 0]
@@ -98,7 +107,8 @@ H0 == [rearmed |-> FALSE,     \* a started / finished join was set back to WAITI
 Fired(edges) == SelectSeq(edges, LAMBDA e : e.fires)
 \* commands computed when task t completes with state s: on-error | on-success, then on-complete
 NextTargets(t, s) ==
-  LET c == (IF s = "ERROR" THEN Fired(D.tasks[t].err) ELSE IF s = "SUCCESS" THEN Fired(D.tasks[t].succ) ELSE <<>>)
+  \* (a SKIPPED task without an on-skip clause follows on-success - and not on-complete)
+  LET c == (IF s = "ERROR" THEN Fired(D.tasks[t].err) ELSE IF s \in {"SUCCESS", "SKIPPED"} THEN Fired(D.tasks[t].succ) ELSE <<>>)
              \o (IF s \in {"SUCCESS", "ERROR"} THEN Fired(D.tasks[t].comp) ELSE <<>>)
   IN [i \in 1..Len(c) |-> c[i].to]
 Cmd(to) == IF to \in Names THEN [c |-> "run", t |-> to] ELSE [c |-> to, t |-> ""]     \* to in fail / succeed / pause / noop
@@ -155,9 +165,14 @@ Affected(t, tks) == Walk(Outbound(t), {t}, tks)
 (* ---- the transaction state threaded through the handlers ----                                  *)
 (* S = [wf, tk, ax, backlog, ops, hist]: ops = the post-commit operations registered so far, in order *)
 \* newjobs = the scheduler jobs the transaction persists (policies), in order: [func, t, at, st]
-Op(o, t) == [op |-> o, t |-> t, k |-> 0, fr |-> TRUE, w |-> FALSE]
+\* (rr: "" | "reset" | "noreset" - a start_task sent by rerun_workflow: RunExistingTask(rerun = True, reset))
+Op(o, t) == [op |-> o, t |-> t, k |-> 0, fr |-> TRUE, w |-> FALSE, rr |-> ""]
 Cur == [wf |-> wf, tk |-> tk, ax |-> ax, backlog |-> backlog, ops |-> <<>>, hist |-> hist, newjobs |-> <<>>]
 Pol(t) == D.tasks[t]
+IsItems(t) == D.tasks[t].items >= 0
+AxRec(st, i) == [s |-> st, i |-> i, a |-> FALSE]
+\* ordinal of the k-th action execution of t among those of the same item index (1 = first execution of that item)
+Ord(axs, k) == Cardinality({j \in 1..k : axs[j].i = axs[k].i})
 PJob(f, t, at, st) == [func |-> f, t |-> t, at |-> at, st |-> st]
 
 \* Task.create_new for a RunTask command: a plain task gets a new IDLE row; a join is deferred (Task.defer)
@@ -180,6 +195,8 @@ Step1(S, c, inResume) ==
          [] c.c = "existing" ->
               [S EXCEPT !.ops = Append(@, [Op("start_task", c.t) EXCEPT !.fr = FALSE, !.w = (S.tk[c.t].state = "WAITING")]),
                         !.hist.existingSent = TRUE]
+         [] c.c = "rerun" ->    \* create_task(RunExistingTask(rerun = True)): the task is in ERROR, not WAITING - nothing but the message
+              [S EXCEPT !.ops = Append(@, [Op("start_task", c.t) EXCEPT !.fr = FALSE, !.rr = c.rr])]
          [] c.c = "fail"    -> [S EXCEPT !.wf = "ERROR"]
          [] c.c = "succeed" -> [S EXCEPT !.wf = "SUCCESS"]
          [] c.c = "pause"   -> [S EXCEPT !.wf = "PAUSED", !.hist.paused = TRUE]
@@ -211,13 +228,17 @@ AfterComplete(S, t, s0) ==
       \* retry: only for a task that is (still) in a final state; the counter is taken out of the context and put back
       \* (incremented) only if another attempt follows
       applies == Pol(t).retry > 0 /\ r1.state \in {"SUCCESS", "ERROR"}
-      again == applies /\ r1.state = "ERROR" /\ r1.retryNo < Pol(t).retry
+      \* (continue-on / break-on: a failed attempt is repeated unless break-on is true or continue-on is false; a successful one only
+      \*  if continue-on is true)
+      repeatable == \/ (r1.state = "ERROR" /\ Pol(t).breakOn # "true" /\ Pol(t).contOn # "false")
+                    \/ (r1.state = "SUCCESS" /\ Pol(t).contOn = "true")
+      again == applies /\ repeatable /\ r1.retryNo < Pol(t).retry
       \* (when no further attempt follows the policy removes the counter from its in-memory context only - nested changes of
       \*  the runtime context are not persisted without touch_runtime_context() - the stored counter stays)
       r2 == IF ~again THEN r1
             ELSE [r1 EXCEPT !.retryNo = @ + 1, !.state = IF IsJoin(t) THEN "WAITING" ELSE "DELAYED"]
       j2 == IF again THEN <<PJob(IF IsJoin(t) THEN "refresh" ELSE "continue", t, now + Pol(t).delay, "")>> ELSE <<>>
-  IN [row |-> r2, jobs |-> j1 \o j2]
+  IN [row |-> r2, jobs |-> j1 \o j2, again |-> again]
 \* Task.complete(state): ignored for a completed task; the policies may postpone the completion (DELAYED: nothing else
 \* happens) or start another attempt; next tasks and error handling are recorded; while the execution is PAUSED nothing
 \* is dispatched and the task stays unprocessed; a completed execution routes nowhere
@@ -225,7 +246,9 @@ Complete(S, t, s0) ==
   IF Done(S.tk[t].state) THEN {S}
   ELSE LET ac == AfterComplete(S, t, s0)
            s  == ac.row.state
-           Sj == [S EXCEPT !.newjobs = @ \o ac.jobs]
+           \* (another attempt: Task.invalidate_result - no execution of the task stays accepted)
+           Sj == [S EXCEPT !.newjobs = @ \o ac.jobs,
+                           !.ax[t] = IF ac.again THEN [k \in 1..Len(@) |-> [@[k] EXCEPT !.a = FALSE]] ELSE @]
        IN IF s = "DELAYED" THEN {[Sj EXCEPT !.tk[t] = ac.row]}
           ELSE LET cmds  == IF S.wf \in Final THEN <<>> ELSE Cmds(t, s)
                    nexts == {cmds[i].t : i \in {j \in 1..Len(cmds) : cmds[j].c = "run"}}
@@ -240,8 +263,36 @@ CheckAffected(S, t) ==
   ELSE {[S EXCEPT !.ops = @ \o [i \in 1..Len(ap) |-> Op("sched_refresh", ap[i])]] : ap \in AnyPerm(Affected(t, S.tk))}
 CompleteAndCheck(S, t, s) == UNION {CheckAffected(S1, t) : S1 \in Complete(S, t, s)}
 \* RegularTask._schedule_actions: a new action execution and its run_action request
-StartAction(S, t) ==
-  [S EXCEPT !.ax[t] = Append(@, "RUNNING"), !.ops = Append(@, [Op("run_action", t) EXCEPT !.k = Len(S.ax[t]) + 1])]
+StartOne(S, t, i) ==
+  [S EXCEPT !.ax[t] = Append(@, AxRec("RUNNING", i)), !.ops = Append(@, [Op("run_action", t) EXCEPT !.k = Len(S.ax[t]) + 1])]
+\* WithItemsTask._schedule_actions: the first time count and capacity are fixed; the next indexes (those not yet accepted or
+\* running, in order, as many as the capacity allows) get an action execution each; no index at all completes the task
+Busy(a) == a.a \/ a.s \in {"RUNNING", "IDLE"}
+RECURSIVE Sorted(_)
+Sorted(S) == IF S = {} THEN <<>> ELSE LET m == CHOOSE i \in S : \A i2 \in S : i <= i2 IN <<m>> \o Sorted(S \ {m})
+RECURSIVE StartMany(_, _, _)
+StartMany(S, t, idxs) == IF idxs = <<>> THEN S
+                         ELSE StartMany([StartOne(S, t, Head(idxs)) EXCEPT !.tk[t].wiCap = IF @ = -1 THEN -1 ELSE @ - 1], t, Tail(idxs))
+ScheduleItems(S, t) ==
+  LET fresh == S.tk[t].wiCount = -1
+      S1 == IF fresh THEN [S EXCEPT !.tk[t].wiCount = Pol(t).items, !.tk[t].wiCap = IF S.tk[t].conc > 0 THEN S.tk[t].conc ELSE -1] ELSE S
+      axs == S1.ax[t]
+      cnt == S1.tk[t].wiCount
+      from == Cardinality({k \in 1..Len(axs) : Busy(axs[k])})
+      \* (_get_next_indexes: indexes whose only finished executions are unaccepted ones come first, then everything above them)
+      accI == {axs[k].i : k \in {j \in 1..Len(axs) : axs[j].a /\ axs[j].s \in Final}}
+      cand == {axs[k].i : k \in {j \in 1..Len(axs) : ~axs[j].a /\ axs[j].s \in Final}} \ accI
+      mx == CHOOSE i \in cand : \A i2 \in cand : i2 <= i
+      all == IF cand # {} THEN Sorted(cand) \o [j \in 1..(IF cnt - 1 > mx THEN cnt - 1 - mx ELSE 0) |-> mx + j]
+             ELSE [j \in 1..(IF cnt > from THEN cnt - from ELSE 0) |-> from + j - 1]
+      idxs == IF S1.tk[t].wiCap = -1 \/ S1.tk[t].wiCap >= Len(all) THEN all ELSE SubSeq(all, 1, S1.tk[t].wiCap)
+  IN [S2 |-> StartMany(S1, t, idxs), none |-> idxs = <<>>]
+\* RegularTask / WithItemsTask._schedule_actions
+\* (_reset_actions of _run_existing: accepted ERROR executions are un-accepted first)
+Unaccept(S, t) == [S EXCEPT !.ax[t] = [k \in 1..Len(@) |-> IF @[k].a /\ @[k].s = "ERROR" THEN [@[k] EXCEPT !.a = FALSE] ELSE @[k]]]
+UnacceptAll(S, t) == [S EXCEPT !.ax[t] = [k \in 1..Len(@) |-> [@[k] EXCEPT !.a = FALSE]]]
+Start(S, t) == IF ~IsItems(t) THEN {StartOne(S, t, 0)}
+               ELSE LET r == ScheduleItems(S, t) IN IF r.none THEN CompleteAndCheck(r.S2, t, "SUCCESS") ELSE {r.S2}
 
 (* ---- committing a transaction ---- *)
 NewBatch(ops) == IF ops = <<>> THEN ptq ELSE ptq \cup {[id |-> Fresh(Ids(ptq)), ops |-> ops]}
@@ -284,7 +335,7 @@ PtqStep(b) ==
      IN /\ ev' = [a |-> "PtqStep", op |-> o.op, t |-> o.t, k |-> o.k, fr |-> o.fr]
         /\ ptq' = rest
         /\ CASE o.op \in {"start_task", "run_action"} ->
-                  /\ msgs' = msgs \cup {WithId(msgs, Msg(o.op, o.t, o.k, "", o.fr, o.w))}
+                  /\ msgs' = msgs \cup {WithId(msgs, Msg(o.op, o.t, o.k, o.rr, o.fr, o.w))}
                   /\ UNCHANGED <<wf, jobs>>
              [] o.op = "check" ->              \* workflow_handler.check_and_complete, own transaction
                   /\ wf' = Checked(wf, tk)
@@ -295,6 +346,15 @@ PtqStep(b) ==
                              THEN jobs ELSE NewJob(jobs, "refresh", o.t, now)
   /\ UNCHANGED <<D, tk, ax, seen, backlog, lpass, now, hist>>
 
+\* the policies before a start, in this order: wait-before - DELAYED + _continue_task, no action yet; timeout -
+\* _fail_task_if_incomplete is armed whether or not the task was delayed; concurrency - the limit goes into the runtime context
+BeforeStart(S, t) ==
+  LET wb == Pol(t).waitBefore > 0 /\ ~S.tk[t].wbSkip
+      S1 == IF wb THEN [S EXCEPT !.tk[t].state = "DELAYED", !.tk[t].wbSkip = TRUE,
+                                 !.newjobs = Append(@, PJob("continue", t, now + Pol(t).waitBefore, ""))]
+            ELSE [S EXCEPT !.tk[t].state = "RUNNING"]
+      S2 == IF Pol(t).timeout > 0 THEN [S1 EXCEPT !.newjobs = Append(@, PJob("timeout", t, now + Pol(t).timeout, ""))] ELSE S1
+  IN [S |-> [S2 EXCEPT !.tk[t].conc = Pol(t).conc], wb |-> wb]
 \* task_handler.run_task
 HandleStartTask(m) ==
   LET t == m.t IN
@@ -303,25 +363,40 @@ HandleStartTask(m) ==
        \* (policies before the start, in this order: wait-before - DELAYED + _continue_task, no action yet; timeout -
        \*  _fail_task_if_incomplete is armed whether or not the task was delayed)
        IF ~m.w /\ tk[t].state = "IDLE"
-       THEN LET wb == Pol(t).waitBefore > 0 /\ ~tk[t].wbSkip
-                S1 == IF wb THEN [Cur EXCEPT !.tk[t].state = "DELAYED", !.tk[t].wbSkip = TRUE,
-                                             !.newjobs = Append(@, PJob("continue", t, now + Pol(t).waitBefore, ""))]
-                      ELSE [Cur EXCEPT !.tk[t].state = "RUNNING"]
-                S2 == IF Pol(t).timeout > 0 THEN [S1 EXCEPT !.newjobs = Append(@, PJob("timeout", t, now + Pol(t).timeout, ""))] ELSE S1
-            IN {IF wb THEN S2 ELSE StartAction(S2, t)}
+       THEN LET b == BeforeStart(Cur, t) IN IF b.wb THEN {b.S} ELSE Start(b.S, t)
        ELSE CheckAffected(Cur, t)
+  ELSE IF m.res # ""
+  THEN \* sent by rerun_workflow: _run_existing(rerun = True) - refuses a SUCCESS task; RUNNING, unprocessed; the before-start
+       \* policies run again (their context was cleared by the rerun); reset = True un-accepts every execution, otherwise only the
+       \* failed ones; a new action (for a with-items task: the next indexes)
+       IF m.w THEN CheckAffected(Cur, t)
+       ELSE IF tk[t].state \in {"SUCCESS", "none"} THEN {Cur}
+       ELSE LET S0 == [Cur EXCEPT !.tk[t].processed = FALSE]
+                b == BeforeStart(S0, t)
+            IN IF b.wb THEN {b.S} ELSE Start(IF m.res = "reset" THEN UnacceptAll(b.S, t) ELSE Unaccept(b.S, t), t)
   ELSE \* RegularTask._run_existing: refuses a SUCCESS task (MistralError: the transaction rolls back), otherwise sets
        \* RUNNING whatever the state was and starts a new action
        IF m.w THEN CheckAffected(Cur, t)
        ELSE IF tk[t].state \in {"SUCCESS", "none"} THEN {Cur}
-       ELSE {StartAction([Cur EXCEPT !.tk[t].state = "RUNNING",
-                                     !.tk[t].processed = IF tk[t].state = "RUNNING" THEN @ ELSE FALSE], t)}
+       \* (these messages come from the resume of the execution - RunExistingTask with reset = True: no execution stays accepted)
+       ELSE Start(UnacceptAll([Cur EXCEPT !.tk[t].state = "RUNNING", !.hist.itemsRestart = @ \/ (IsItems(t) /\ ax[t] # <<>>),
+                                          !.tk[t].processed = IF tk[t].state = "RUNNING" THEN @ ELSE FALSE], t), t)
 \* the executor: runs the action and sends the result; a redelivered request is answered with an error without running
-Outcome(t, k) == LET oc == D.tasks[t].outcome[1] IN IF oc[IF k <= Len(oc) THEN k ELSE Len(oc)] = "ok" THEN "SUCCESS" ELSE "ERROR"
+PendingRun(t, k) == \/ \E m \in msgs : m.m = "run_action" /\ m.t = t /\ m.k = k
+                    \/ \E b \in ptq : \E n \in 1..Len(b.ops) : b.ops[n].op = "run_action" /\ b.ops[n].t = t /\ b.ops[n].k = k
+\* (the oracle: per item index the outcomes of its successive executions)
+Outcome(t, k) == LET i == ax[t][k].i
+                     row == IF i + 1 <= Len(D.tasks[t].outcome) THEN D.tasks[t].outcome[i + 1] ELSE <<"ok">>
+                     \* (the n-th RUN of that item: executions whose request has not reached the executor yet do not count)
+                     n == Cardinality({j \in 1..Len(ax[t]) : ax[t][j].i = i /\ j # k /\ ~PendingRun(t, j)}) + 1
+                 IN IF row[IF n <= Len(row) THEN n ELSE Len(row)] = "ok" THEN "SUCCESS" ELSE "ERROR"
 \* action_handler.on_action_complete: a completed action refuses a second result (ValueError, rollback)
+\* for a with-items task the task-level accounting is decoupled: a keyed scheduler job _scheduled_on_action_complete
 HandleActionComplete(m) ==
-  IF m.k > Len(ax[m.t]) \/ ax[m.t][m.k] # "RUNNING" THEN {Cur}
-  ELSE CompleteAndCheck([Cur EXCEPT !.ax[m.t][m.k] = m.res], m.t, m.res)
+  IF m.k > Len(ax[m.t]) \/ ax[m.t][m.k].s # "RUNNING" THEN {Cur}
+  ELSE LET S1 == [Cur EXCEPT !.ax[m.t][m.k].s = m.res, !.ax[m.t][m.k].a = TRUE]
+       IN IF IsItems(m.t) THEN {[S1 EXCEPT !.newjobs = Append(@, PJob("items", m.t, now, ""))]}
+          ELSE CompleteAndCheck(S1, m.t, m.res)
 
 Handle(m, isDup) ==
   CASE m.m = "start_task" -> /\ \E S \in HandleStartTask(m) : Commit(S) /\ jobs' = AddJobs(jobs, S.newjobs)
@@ -366,14 +441,36 @@ InvokeBody(j, ran) ==
      THEN \* _check_and_fix_integrity: nothing to fix in these runs; re-arms itself while the execution is unfinished
           /\ jobs' = IF wf \in Final THEN ran ELSE NewJob(ran, "integrity", "", now + 120)
           /\ UNCHANGED <<wf, tk, ax, ptq, backlog, hist>>
+     ELSE IF j.func = "items"
+     THEN \* _scheduled_on_action_complete -> WithItemsTask.on_action_complete (under its named lock, after a refresh): capacity back,
+          \* completed (every index accepted and the capacity fully restored) -> final state; else more indexes if a concurrency limit
+          \* holds some back
+          LET t == j.t
+              r == tk[t]
+              cap1 == IF r.conc > 0 /\ r.wiCap < r.conc THEN r.wiCap + 1 ELSE r.wiCap
+              S1 == [Cur EXCEPT !.tk[t].wiCap = cap1]
+              acc == {k \in 1..Len(ax[t]) : ax[t][k].a}
+              cnt == IF r.wiCount > 0 THEN r.wiCount ELSE 1
+              done == cnt = Cardinality(acc) /\ (r.conc = 0 \/ cap1 = r.conc)
+              final == IF \E k \in acc : ax[t][k].s = "ERROR" THEN "ERROR" ELSE "SUCCESS"
+              more == r.wiCount > Cardinality({k \in 1..Len(ax[t]) : ax[t][k].a \/ ax[t][k].s = "RUNNING"})
+          IN IF r.state = "none" THEN jobs' = ran /\ UNCHANGED <<wf, tk, ax, ptq, backlog, hist>>
+             \* (a task that is completed already: nothing - but _check_affected_tasks still runs after it)
+             ELSE IF Done(r.state) THEN \E S \in CheckAffected(Cur, t) : Commit(S) /\ jobs' = AddJobs(ran, S.newjobs)
+             ELSE IF done THEN \E S \in CompleteAndCheck(S1, t, final) : Commit(S) /\ jobs' = AddJobs(ran, S.newjobs)
+             ELSE IF more /\ r.conc > 0 THEN \E S \in Start(S1, t) : Commit(S) /\ jobs' = AddJobs(ran, S.newjobs)
+             ELSE Commit(S1) /\ jobs' = ran
      ELSE IF j.func = "continue"
      THEN \* policies._continue_task -> task_handler.continue_task: RUNNING whatever the state was (the compare-and-swap's result
           \* is ignored, a completed task is restarted too), then _run_existing: a new action
           IF tk[j.t].state = "none" THEN jobs' = ran /\ UNCHANGED <<wf, tk, ax, ptq, backlog, hist>>
-          ELSE Commit(StartAction([Cur EXCEPT !.tk[j.t].state = "RUNNING"], j.t)) /\ jobs' = ran
+          ELSE \E S \in Start(Unaccept([Cur EXCEPT !.tk[j.t].state = "RUNNING"], j.t), j.t) : Commit(S) /\ jobs' = AddJobs(ran, S.newjobs)
      ELSE IF j.func \in {"complete", "timeout"}
      THEN \* policies._complete_task(state) / _fail_task_if_incomplete: complete_task unless the task is completed already
-          IF tk[j.t].state = "none" \/ Done(tk[j.t].state) THEN jobs' = ran /\ UNCHANGED <<wf, tk, ax, ptq, backlog, hist>>
+          \* (_complete_task on a completed task: Task.complete returns at once, _check_affected_tasks still runs;
+          \*  _fail_task_if_incomplete tests the state itself and does nothing)
+          IF tk[j.t].state = "none" \/ (Done(tk[j.t].state) /\ j.func = "timeout") THEN jobs' = ran /\ UNCHANGED <<wf, tk, ax, ptq, backlog, hist>>
+          ELSE IF Done(tk[j.t].state) THEN \E S \in CheckAffected(Cur, j.t) : Commit(S) /\ jobs' = AddJobs(ran, S.newjobs)
           ELSE \E S \in CompleteAndCheck([Cur EXCEPT !.hist.timeoutRetry = @ \/ (j.func = "timeout" /\ Pol(j.t).retry > 0)], j.t,
                                          IF j.func = "timeout" THEN "ERROR" ELSE j.st) : Commit(S) /\ jobs' = AddJobs(ran, S.newjobs)
      ELSE \* _refresh_task_state(join)
@@ -383,7 +480,8 @@ InvokeBody(j, ran) ==
                 THEN jobs' = ran /\ UNCHANGED <<wf, tk, ax, ptq, backlog, hist>>
                 ELSE IF ls = "RUNNING"
                 THEN \* continue_task -> _run_existing: the join starts its action
-                     Commit(StartAction([Cur EXCEPT !.tk[t].state = "RUNNING", !.hist.delayedRestart = @ \/ (tk[t].state = "DELAYED")], t)) /\ jobs' = ran
+                     \E S \in Start(Unaccept([Cur EXCEPT !.tk[t].state = "RUNNING", !.hist.delayedRestart = @ \/ (tk[t].state = "DELAYED")], t), t) :
+                        Commit(S) /\ jobs' = AddJobs(ran, S.newjobs)
                 ELSE \* complete_task(ERROR, 'Failed by tasks: ...') with the usual routing
                      \E S \in CompleteAndCheck(Cur, t, "ERROR") : Commit(S) /\ jobs' = AddJobs(ran, S.newjobs)
 JobInvoke(j) ==
@@ -465,6 +563,44 @@ OpStop(s) ==
                     [] s = "CANCELLED" -> IF wf \in {"RUNNING", "PAUSED"} THEN [Cur EXCEPT !.wf = "CANCELLED"] ELSE Cur))
   /\ UNCHANGED <<D, msgs, seen, jobs, lpass, now>>
   /\ ev' = [a |-> "OpStop", s |-> s]
+\* rerun_workflow(task, reset) / (skip): nothing for a PAUSED execution; a SUCCESS execution refuses (WorkflowException: SUCCESS ->
+\* RUNNING is no valid move, the transaction rolls back); otherwise the execution is RUNNING again, two integrity checks are
+\* scheduled (now and after the configured delay), the runtime context of the task is cleared (retry counter, policy flags,
+\* with-items accounting, concurrency), finished unprocessed tasks become processed, and the one command is dispatched (after the
+\* backlog, if the execution had been stopped while PAUSED)
+ClearCtx(r) == [r EXCEPT !.retryNo = 0, !.wbSkip = FALSE, !.waSkip = FALSE, !.wiCount = -1, !.wiCap = -1, !.conc = 0]
+RerunPrefix(t) ==
+  LET unproc == {x \in Names : Done(tk[x].state) /\ ~tk[x].processed}
+      tk1 == [x \in Names |-> IF x = t THEN ClearCtx(tk[x]) ELSE IF x \in unproc THEN [tk[x] EXCEPT !.processed = TRUE] ELSE tk[x]]
+  IN Spend([Cur EXCEPT !.wf = "RUNNING", !.tk = tk1, !.hist.reruns = @ + 1, !.hist.rerunT = @ \cup {t},
+                       !.hist.rerunWaiting = IF wf \in Final THEN @ \cup {x \in Names : tk[x].state = "WAITING"} ELSE @])
+ConfIntegrityDelay == 20     \* [engine] execution_integrity_check_delay (default)
+RerunJobs(J) == IF QuietRerun THEN J ELSE NewJob(NewJob(J, "integrity", "", now), "integrity", "", now + ConfIntegrityDelay)
+OpRerun(t, reset) ==
+  /\ wf # "none" /\ hist.ops < OpBudget /\ "rerun" \in OpKinds /\ tk[t].state = "ERROR" /\ (NoopOps \/ wf \in {"RUNNING", "ERROR", "CANCELLED"})
+  /\ IF wf \in {"PAUSED", "SUCCESS"} THEN Commit(Spend(Cur)) /\ UNCHANGED jobs
+     ELSE /\ \E S \in Dispatch(RerunPrefix(t), <<[c |-> "rerun", t |-> t, rr |-> IF reset THEN "reset" ELSE "noreset"]>>, FALSE) : Commit(S)
+          /\ jobs' = RerunJobs(jobs)
+  /\ UNCHANGED <<D, msgs, seen, lpass, now>>
+  /\ ev' = [a |-> "OpRerun", t |-> t, reset |-> reset]
+\* skip: the command is carried out inside the dispatcher - Task.complete(SKIPPED, skip = True): no policies, the task follows
+\* on-success, then _check_affected_tasks
+CompleteSkip(S, t) ==
+  LET cmds  == IF S.wf \in Final THEN <<>> ELSE Cmds(t, "SKIPPED")
+      nexts == {cmds[i].t : i \in {j \in 1..Len(cmds) : cmds[j].c = "run"}}
+      tk1   == [S.tk EXCEPT ![t] = [@ EXCEPT !.state = "SKIPPED", !.next = nexts, !.processed = (IF S.wf = "PAUSED" THEN @ ELSE TRUE)]]
+  IN IF S.wf = "PAUSED" THEN {[S EXCEPT !.tk = tk1]}
+     ELSE Dispatch([S EXCEPT !.tk = tk1, !.ops = IF nexts = {} THEN Append(@, Op("check", "")) ELSE @], cmds, FALSE)
+OpSkip(t) ==
+  /\ wf # "none" /\ hist.ops < OpBudget /\ "skip" \in OpKinds /\ tk[t].state = "ERROR" /\ (NoopOps \/ wf \in {"RUNNING", "ERROR", "CANCELLED"})
+  /\ IF wf \in {"PAUSED", "SUCCESS"} THEN Commit(Spend(Cur)) /\ UNCHANGED jobs
+     ELSE /\ \E S1 \in Dispatch(RerunPrefix(t), <<>>, FALSE) :
+               IF S1.wf \in Final THEN Commit(S1)
+               ELSE IF S1.wf = "PAUSED" THEN Commit([S1 EXCEPT !.hist.multi = TRUE])      \* (a skip command in the backlog: outside the model)
+               ELSE \E S2 \in CompleteSkip(S1, t) : \E S3 \in CheckAffected(S2, t) : Commit(S3)
+          /\ jobs' = RerunJobs(jobs)
+  /\ UNCHANGED <<D, msgs, seen, lpass, now>>
+  /\ ev' = [a |-> "OpSkip", t |-> t]
 
 Enabled == msgs # {} \/ ptq # {} \/ lpass.active \/ \E j \in jobs : j.phase # "new" \/ j.at <= now
 TickTo(x) ==
@@ -482,6 +618,7 @@ Next == \/ StartWorkflow
         \/ \E j \in jobs : JobCapture(j) \/ JobInvoke(j) \/ JobDelete(j)
         \/ LPoll \/ LInvoke \/ LDelete
         \/ OpPause \/ OpResume \/ \E s \in Final : OpStop(s)
+        \/ \E t \in Names : OpSkip(t) \/ \E r \in BOOLEAN : OpRerun(t, r)
         \/ Tick
 Spec == /\ Init /\ [][Next]_vars
 FairSpec == Spec /\ WF_vars(Next)
@@ -496,38 +633,63 @@ KF_ResumeJoin   == \E x \in hist.resumeJoin : tk[x].state = "WAITING"           
 KF_NoopResume   == hist.noopResume /\ AllDone                                              \* KF-C10-8
 KF_Rearmed      == hist.rearmed                                                            \* KF-C04-1
 KF_DoubleStart  == hist.existingSent                                                       \* KF-C10-5
+KF_RerunJoin    == \E x \in hist.rerunWaiting : tk[x].state = "WAITING"                  \* KF-C12-9
+IsRerunStep     == ev'.a \in {"OpRerun", "OpSkip"}
+\* KF-C12-1 / -2 / KF-C07-5: a with-items task that is rerun re-executes indexes that are accepted already / an index twice
+KF_ItemsRerun   == \E x \in hist.rerunT : IsItems(x)
+KF_ItemsRestart == hist.itemsRestart                                                       \* KF-C07-7
 \* C01 / C10: at rest the execution is finished - or PAUSED because somebody asked for it
-NoHangM   == Quiet => (wf \in Final \/ (wf = "PAUSED" /\ hist.paused) \/ KF_ResumeJoin \/ KF_NoopResume)
-NoWaitingAtRestM == Quiet => ((\A x \in Names : tk[x].state # "WAITING") \/ wf \in Final \cup {"PAUSED"} \/ KF_ResumeJoin)
+NoHangM   == Quiet => (wf \in Final \/ (wf = "PAUSED" /\ hist.paused) \/ KF_ResumeJoin \/ KF_NoopResume \/ KF_RerunJoin
+                       \/ (\E x \in hist.rerunT : IsItems(x) /\ tk[x].state = "RUNNING")
+                       \/ (KF_ItemsRestart /\ \E x \in Names : IsItems(x) /\ tk[x].state = "RUNNING"))
+NoWaitingAtRestM == Quiet => ((\A x \in Names : tk[x].state # "WAITING") \/ wf \in Final \cup {"PAUSED"} \/ KF_ResumeJoin \/ KF_RerunJoin)
 \* C04: a join starts its action at most once per run - modulo re-arming
 \* (C08: with a retry policy at most count + 1 attempts)
-JoinOnceM == KF_Rearmed \/ hist.delayedRestart \/ hist.timeoutRetry \/ \A x \in Names : IsJoin(x) => Len(ax[x]) <= Pol(x).retry + 1
+\* (every accepted rerun allows as many attempts again)
+Attempts(x) == (IF IsItems(x) THEN Pol(x).items * (Pol(x).retry + 1) ELSE Pol(x).retry + 1) * (1 + hist.reruns)
+JoinOnceM == KF_Rearmed \/ hist.delayedRestart \/ hist.timeoutRetry \/ \A x \in Names : IsJoin(x) => Len(ax[x]) <= Attempts(x)
 \* C06 / C10: a plain task starts its action once - modulo the double start after resume; redeliveries never start anything
-StartOnceM == KF_DoubleStart \/ hist.timeoutRetry \/ \A x \in Names : ~IsJoin(x) => Len(ax[x]) <= Pol(x).retry + 1
+StartOnceM == KF_DoubleStart \/ hist.timeoutRetry \/ \A x \in Names : ~IsJoin(x) => Len(ax[x]) <= Attempts(x)
+\* C07: one execution per item index (no retry / rerun here), never more live executions than the concurrency limit (a with-items
+\* JOIN is started without its policies - KF-C07-1 - and has no limit), the task completes only when every index is accepted, in ERROR
+\* iff an accepted item failed
+OnePerIndexM == \A x \in Names : (IsItems(x) /\ Pol(x).retry = 0 /\ hist.reruns = 0 /\ ~KF_ItemsRestart /\ ~KF_Rearmed /\ ~hist.delayedRestart) =>
+                   \A k1, k2 \in 1..Len(ax[x]) : ax[x][k1].i = ax[x][k2].i => k1 = k2
+WithinLimitM == \A x \in Names : (IsItems(x) /\ tk[x].conc > 0 /\ ~KF_ItemsRestart) =>
+                   Cardinality({k \in 1..Len(ax[x]) : ax[x][k].s = "RUNNING"}) <= tk[x].conc
+CompleteAfterAllM == \A x \in Names : (IsItems(x) /\ hist.reruns = 0 /\ tk[x].state \in {"SUCCESS", "ERROR"} /\ tk[x].wiCount >= 0 /\ ~KF_ItemsRestart /\ ~KF_Rearmed) =>
+                        /\ \A k \in 1..Len(ax[x]) : ax[x][k].s # "RUNNING"
+                        /\ (wf \notin Final \/ tk[x].state = "SUCCESS") => {ax[x][k].i : k \in {j \in 1..Len(ax[x]) : ax[x][j].a}} = 0..(Pol(x).items - 1)
+                        /\ (wf \notin Final) => ((tk[x].state = "ERROR") <=> \E k \in 1..Len(ax[x]) : ax[x][k].a /\ ax[x][k].s = "ERROR")
 \* C08: at rest a task with a retry policy (and no timeout) ends in the state of its last attempt; no attempt after a success
 FinalIffLastM == Quiet => \A x \in Names : (Pol(x).retry > 0 /\ Pol(x).timeout = 0 /\ Done(tk[x].state) /\ ax[x] # <<>>
-                                               /\ ~KF_Rearmed /\ ~hist.delayedRestart /\ ~KF_DoubleStart)
-                               => ((tk[x].state = "SUCCESS") <=> (ax[x][Len(ax[x])] = "SUCCESS"))
-StopAtFirstSuccessM == \A x \in Names : (Pol(x).retry > 0 /\ ~KF_Rearmed /\ ~hist.delayedRestart /\ ~KF_DoubleStart /\ ~hist.timeoutRetry)
-                          => \A k \in 1..Len(ax[x]) : ax[x][k] = "SUCCESS" => k = Len(ax[x])
+                                               /\ ~KF_Rearmed /\ ~hist.delayedRestart /\ ~KF_DoubleStart /\ tk[x].state # "SKIPPED")
+                               => ((tk[x].state = "SUCCESS") <=> (ax[x][Len(ax[x])].s = "SUCCESS"))
+StopAtFirstSuccessM == \A x \in Names : (Pol(x).retry > 0 /\ Pol(x).contOn = "none" /\ ~KF_Rearmed /\ ~hist.delayedRestart /\ ~KF_DoubleStart /\ ~hist.timeoutRetry)
+                          => \A k \in 1..Len(ax[x]) : ax[x][k].s = "SUCCESS" => k = Len(ax[x])
 \* C04: a join starts (its first action appears) only when enough inbound tasks completed and routed to it
 JoinGateM == [][\A x \in Names : (IsJoin(x) /\ Len(ax[x]) = 0 /\ Len(ax'[x]) = 1) =>
                    LET fed == {i \in Inbound(x) : Done(tk'[i].state) /\ x \in tk'[i].next}
-                   IN hist'.rearmed \/ Cardinality(fed) >= (IF D.tasks[x].join = -1 THEN Cardinality(Inbound(x)) ELSE D.tasks[x].join)]_vars
+                   IN hist'.rearmed \/ x \in hist'.rerunT \/ Cardinality(fed) >= (IF D.tasks[x].join = -1 THEN Cardinality(Inbound(x)) ELSE D.tasks[x].join)]_vars
 \* C03 / C11: finished executions stay finished; a result is recorded once; SUCCESS tasks stay SUCCESS (modulo re-arming)
-FinishedFrozenM == [][(wf \in Final) => (wf' = wf)]_vars
-ResultOnceM == [][\A x \in Names : \A k \in 1..Len(ax[x]) : ax[x][k] \in Final => (Len(ax'[x]) >= k /\ ax'[x][k] = ax[x][k])]_vars
+FinishedFrozenM == [][(wf \in Final /\ ~IsRerunStep) => (wf' = wf)]_vars
+ResultOnceM == [][\A x \in Names : \A k \in 1..Len(ax[x]) : ax[x][k].s \in Final => (Len(ax'[x]) >= k /\ ax'[x][k].s = ax[x][k].s)]_vars
 SuccessStickyM == [][\A x \in Names : tk[x].state = "SUCCESS" => (tk'[x].state = "SUCCESS" \/ hist'.rearmed)]_vars
 \* C03: the execution's state changes only along the documented lifecycle
 LegalPairs == {<<"none", "RUNNING">>, <<"RUNNING", "PAUSED">>, <<"RUNNING", "SUCCESS">>, <<"RUNNING", "ERROR">>,
                <<"RUNNING", "CANCELLED">>, <<"PAUSED", "RUNNING">>, <<"PAUSED", "CANCELLED">>, <<"PAUSED", "ERROR">>}
 \* (resume_workflow of an execution whose tasks all finished while it was PAUSED writes PAUSED -> RUNNING -> final state in
 \*  one transaction: the committed change is the composition of two legal moves)
-LegalWfM == [][(wf' = wf) \/ (<<wf, wf'>> \in LegalPairs) \/ (ev'.a = "OpResume" /\ wf = "PAUSED" /\ wf' \in Final)]_vars
+LegalWfM == [][(wf' = wf) \/ (<<wf, wf'>> \in LegalPairs) \/ (ev'.a = "OpResume" /\ wf = "PAUSED" /\ wf' \in Final)
+                \/ (IsRerunStep /\ wf \in {"ERROR", "CANCELLED"})]_vars
+\* C12: an accepted rerun puts the execution back to RUNNING and sends the task its new start; a skip marks the task SKIPPED
+RerunAckM == [][(ev'.a = "OpRerun" /\ wf \in {"RUNNING", "ERROR", "CANCELLED"} /\ backlog = <<>>) =>
+                  (wf' = "RUNNING" /\ \E b \in ptq' : \E n \in 1..Len(b.ops) : b.ops[n].op = "start_task" /\ b.ops[n].t = ev'.t /\ b.ops[n].rr # "")]_vars
+SkipAckM  == [][(ev'.a = "OpSkip" /\ wf \in {"RUNNING", "ERROR", "CANCELLED"} /\ backlog = <<>>) => tk'[ev'.t].state = "SKIPPED"]_vars
 \* C10: while the execution stays PAUSED no task row comes into existence
 NoNewTasksWhilePausedM == [][(wf = "PAUSED" /\ wf' = "PAUSED") => \A x \in Names : (tk[x].state = "none") = (tk'[x].state = "none")]_vars
 \* C11: after the execution finished no task row comes into existence
-NoNewTasksAfterStopM == [][(wf \in Final) => \A x \in Names : (tk[x].state = "none") = (tk'[x].state = "none")]_vars
+NoNewTasksAfterStopM == [][(wf \in Final /\ ~IsRerunStep) => \A x \in Names : (tk[x].state = "none") = (tk'[x].state = "none")]_vars
 \* C10 / C11: an acknowledged pause / stop takes effect at once (stop(ERROR) on PAUSED: KF-C11-1)
 PauseAckM == [][(ev'.a = "OpPause" /\ wf = "RUNNING") => wf' = "PAUSED"]_vars
 StopAckM  == [][(ev'.a = "OpStop" /\ wf \in {"RUNNING", "PAUSED"} /\ ~(ev'.s = "SUCCESS" /\ wf = "PAUSED")) =>
